@@ -736,7 +736,7 @@ def leaf_test_agreement(prog: Program, rep, rule: str):
         TypeArg("builtins.object"),
         TypeArg("builtins.Ellipsis"),
     ]
-    documented = {"collections.abc.Callable", "typing.Callable", "typing.Any", "builtins.object", "builtins.Ellipsis", "re.Match", "typing.TypeVar"}
+    documented = {"collections.abc.Callable", "typing.Callable", "typing.Any", "builtins.object", "builtins.type", "builtins.Ellipsis", "types.EllipsisType", "re.Match", "typing.TypeVar"}
     for a in catalogue():
         if a.flags or a.subscripted or a.cls in documented:
             continue
